@@ -240,6 +240,7 @@ def all_families(nws=(1, 2, 3)):
                 shared_target(nw), shared_target(nw, True), burst(40, nw), reawait(nw, True), reawait(nw, False)]
         out += heap_cases(nw)
         out += [bin_final_send(nw), bin_final_send_tuple(nw)]
+        out += session_cases(nw)
         out += ref_cases(nw)
         out += resource_cases(nw)
     return out
@@ -486,6 +487,41 @@ def abandoned_await_msg(nw=2):
                [select(1, recv()), ret(c(I(22)))],
                [send(1, c(I(7))), ret(OKE)]]
     return meta(scenario("abandoned_await_msg_w%d" % nw, scripts, nw=nw, maxtick=1), False, True, ["C04", "C05"], large=True)
+
+
+# ---------------------------------------------------------------- REPL sessions (several lines, one persistent process)
+def session_cases(nw=2):
+    """Scripted sessions: line k runs script lines[k] in the persistent process 0 (registers = the session's
+    variables, the mailbox and the pid survive); the host may submit a line as soon as the previous result is
+    in, while the processes spawned by earlier lines are still running."""
+    out = []
+    # a worker spawned by line 1 is used by line 2
+    s = scenario("session_worker_w%d" % nw,
+                 [[spawn(1, 3), ret(OKE)],
+                  [send(1, c(I(7))), select(2, aw(1)), ret(r(2))],
+                  [select(1, recv()), ret(t(r(1), r(1)))]], nw=nw, lines=[1, 2])
+    out.append(meta(s, True, True, ["C03", "C04"]))
+    # a process spawned by line 1 posts to the session's process after line 1 has returned; line 2 receives it
+    s = scenario("session_late_message_w%d" % nw,
+                 [[select(4, recv(), tmo(0)), selfpid(1), spawn(2, 3, r(1)), ret(OKE)],
+                  [select(3, recv()), select(5, aw(2)), ret(t(r(3), r(5)))],
+                  [select(2, tmo(1)), send(1, c(I(5))), ret(c(I(6)))]], nw=nw, lines=[1, 2], maxtick=1)
+    out.append(meta(s, True, True, ["C04", "C05", "C03"]))
+    # line 1 gives up on a process (timeout), line 2 lets it finish and awaits it again - twice; binary result
+    s = scenario("session_reawait_w%d" % nw,
+                 [[spawn(1, 3), select(2, aw(1), tmo(0)), ret(r(2))],
+                  [send(1, c(I(1))), select(3, aw(1)), select(4, aw(1)), ret(t(r(3), r(4)))],
+                  [select(1, recv()), ret(hb(170, 187))]], nw=nw, lines=[1, 2])
+    out.append(meta(s, True, True, ["C05", "C06", "C03"]))
+    # three lines: messages sent by line 1 and line 2 to one receiver keep their order; line 3 collects
+    s = scenario("session_fifo_w%d" % nw,
+                 [[spawn(1, 4), send(1, c(I(11))), ret(OKE)],
+                  [send(1, c(I(12))), send(1, c(I(13))), ret(OKE)],
+                  [select(2, aw(1)), ret(r(2))],
+                  [select(1, recv()), select(2, recv()), select(3, recv()), ret(t(r(1), r(2), r(3)))]],
+                 nw=nw, lines=[1, 2, 3])
+    out.append(meta(s, True, True, ["C04", "C03"]))
+    return out
 
 
 def reawait(nw=2, binary=True):
